@@ -8,6 +8,7 @@ pub mod url;
 pub mod pipeline;
 pub mod htmldecode;
 pub mod html;
+pub mod blockh;
 pub mod inline;
 pub mod block;
 pub mod noderender;
@@ -60,6 +61,7 @@ pub fn streams() -> Vec<(&'static str, StreamFn)> {
         ("pipetabs", pipeline::run_tabs as StreamFn),
         ("htmldecode", htmldecode::run as StreamFn),
         ("html", html::run as StreamFn),
+        ("blockh", blockh::run as StreamFn),
         ("inline", inline::run as StreamFn),
         ("block", block::run as StreamFn),
         ("noderender", noderender::run as StreamFn),
